@@ -43,7 +43,7 @@ func (e *Engine) newState(notes map[string]bool) *State {
 	e.d.konst("now0", SInt)
 	e.d.fun("stamp", []Sort{SRef}, SInt)
 	return &State{cells: map[int]Val{}, heap: map[string]string{}, heapNow: map[string]string{}, ghost: map[string]Val{}, globals: map[string]Val{},
-		calls: map[string]string{}, typed: map[string]bool{}, notes: notes, alive: "now0"}
+		calls: map[string]string{}, typed: map[string]bool{}, notes: notes, alive: "now0", d: e.d}
 }
 
 // VerifyFunc symbolically executes fn against its contract and returns the generated queries.
@@ -102,6 +102,9 @@ func (e *Engine) VerifyFunc(fc *FuncContract, fn *ssa.Function) (res *FuncResult
 		st.assume(e.evalBool(env, c))
 	}
 	for _, c := range fc.Defines {
+		st.assume(e.evalBool(env, c))
+	}
+	for _, c := range fc.InvAssumed {
 		st.assume(e.evalBool(env, c))
 	}
 	// vacuity guard: the precondition must be satisfiable
